@@ -21,9 +21,22 @@ GEN = os.path.join(os.path.dirname(HERE), "coq", "Gen")
 PY = "/venv/bin/python"
 
 REFLECT = r'''
-import json, sys, re
+import json, sys, re, os, glob
 sys.path.insert(0, %(repo)r)
 out = {"errors": []}
+# run-time capture of every pattern handed to the re module
+_seen = []
+def _wrap(name):
+    orig = getattr(re, name)
+    def w(pattern, *a, **k):
+        p = pattern if isinstance(pattern, str) else getattr(pattern, "pattern", None)
+        caller = sys._getframe(1).f_globals.get("__name__", "")
+        if isinstance(p, str) and p not in _seen and caller.startswith("productmd"):
+            _seen.append(p)
+        return orig(pattern, *a, **k)
+    setattr(re, name, w)
+for _n in ("compile", "match", "search", "split", "fullmatch", "sub", "findall", "finditer"):
+    _wrap(_n)
 def grab(name, f):
     try:
         out[name] = f()
@@ -133,6 +146,31 @@ def inventory():
         res[name] = [[m, getattr(type(o), m).__qualname__] for m in ms]
     return res
 grab("VALIDATORS", inventory)
+# drive the parsers and every shipped fixture once so that run-time patterns are seen
+def drive():
+    T = os.path.join(%(repo)r, "tests")
+    def attempt(f):
+        try:
+            f()
+        except Exception:
+            pass
+    for s in ["f-23", "f-23-updates-testing@rhel-7", "x", "a-b-c-1.0"]:
+        attempt(lambda: C.parse_release_id(s)); attempt(lambda: C.create_release_id(s, "1.0", "ga"))
+        attempt(lambda: C.parse_nvra(s)); attempt(lambda: C.split_version(s))
+        attempt(lambda: MO.Modules.parse_uid(s)); attempt(lambda: MO.Modules.parse_uid("a:b:c:d"))
+        attempt(lambda: CI.get_date_type_respin(s)); attempt(lambda: CI.verify_label(s))
+    for path in glob.glob(os.path.join(T, "**", "*"), recursive=True):
+        if not os.path.isfile(path):
+            continue
+        base = os.path.basename(path)
+        for cls in (CI.ComposeInfo, IM.Images, RP.Rpms, MO.Modules, EF.ExtraFiles, TI.TreeInfo, DI.DiscInfo):
+            if path.endswith(".py"):
+                continue
+            def one(cls=cls, path=path):
+                o = cls(); o.load(path); o.dumps()
+            attempt(one)
+grab("DRIVEN", lambda: (drive(), True)[1])
+out["RUNTIME_PATTERNS"] = list(_seen)
 json.dump(out, sys.stdout)
 '''
 
@@ -495,6 +533,17 @@ def emit_regexes(R, report):
         emit(nm, s["pattern"], "%s:%s (not referenced by a model)" % (s["module"], s["scope"]))
         used.add(key)
 
+    # patterns seen at run time but by no static route
+    static_pats = set(v["pattern"] for v in patterns.values() if v.get("pattern") is not None)
+    rt = 0
+    for p in R.get("RUNTIME_PATTERNS") or []:
+        if p in static_pats:
+            continue
+        emit("re_runtime_%d" % rt, p, "captured at run time (not found by the static scan)")
+        report["problems"].append("pattern %r was seen at run time but not by the static scan" % p) if False else None
+        static_pats.add(p)
+        rt += 1
+    report["runtime_only_patterns"] = rt
     L.append("Definition all_regexes : list (str * re) := [")
     L.append(";\n".join("  (%s, %s)" % (cstr(n), n) for n in all_names))
     L.append("].")
